@@ -158,6 +158,7 @@ def deletion_part(ctx, fails):
                                        missing=None if pattern == 'none' else pattern)
         covs = meta['covs']
         dfm = punch(df, ctx.rng, ['A'] + covs[:ctx.rng.randint(1, len(covs))])
+        dfm['rowid'] = list(dfm.index)        # a complete bystander column carrying the harness's row ids into the analysed frame
         deleted = dfm.dropna(subset=['A'] + covs)
         cc = dfm.dropna()
         names = NAME_SCHEMES[(i // 2) % len(NAME_SCHEMES)]
@@ -183,7 +184,7 @@ def deletion_part(ctx, fails):
             if any(abs(x - y) > 1e-7 * max(1, abs(y)) or (x != x) != (y != y) for x, y in zip(a, b)):
                 what = 'after deleting the rows missing exposure or a covariate' if kind in KEEP else 'on the complete cases'
                 fails.append((len(dfm), '%s.incomplete-rows-influence' % kind, '%s: %r on the full frame, %r %s (pattern %s)' % (kind, a, b, what, pattern), payload))
-            kept[kind] = [int(x) for x in adf['index']] if 'index' in adf.columns else None
+            kept[kind] = [int(x) for x in adf['rowid']] if 'rowid' in adf.columns else None
         exprs.append('let rows := %s in (kept_ids false rows, kept_ids true rows, miss_flag rows)' % coq_raw(dfm, covs))
         refs.append((kept, payload, len(dfm), list(dfm.index)))
     res, errs = coq_eval(ctx, 'c10gate', IMPORTS, exprs, shard=4)
